@@ -16,6 +16,7 @@ RULE = ("every well-typed expression tree up to depth 2 over {three class variab
         "formatting of the equal long. Every statement is compiled against the tree's mpirxx.h and run for several value rounds; the C++ result "
         "must equal (1) the post-order sequence of C calls in the same program and (2) the Python value of the tree. distinct_nontrivial = "
         "distinct statements (trees x target x assignment form) that compiled and ran.")
+RULE = RULE + (" " + "Later additions: accessor aliasing (get_num/get_den of the assignment target); basefield combinations; extraction against mpf_set_str / the standard library's long extraction, into used targets; fixed-point float output in bases 16/8/10 against exact rounding; float insertion against libstdc++'s double formatting over an exactness table; left/internal adjustment with fill characters.")
 ASSUMPTIONS = ["g++ of this image compiles the generated programs; mpf_class with inexact values is excluded (temporary precision is implementation-defined by the header)",
                "Python int / Fraction is the third witness for mpz_class and mpq_class"]
 ROOT = os.path.dirname(os.path.dirname(os.path.dirname(os.path.abspath(__file__))))
